@@ -85,12 +85,21 @@ func runC06(c *mon.Ctx) {
 					kind = 0
 				}
 				au := audOf(kind)
+				if len(au) > 4 && r.IntN(10) == 0 {
+					// the value interrupted by a processing instruction (every canonicalisation keeps it): the element's
+					// string value is still the whole text
+					cut := 1 + r.IntN(len(au)-1)
+					for cut < len(au) && au[cut]&0xC0 == 0x80 {
+						cut++
+					}
+					au = au[:cut] + sim.PIMark + au[cut:]
+				}
 				if r.IntN(40) == 0 {
 					// an element named Audience in a foreign namespace holding the configured value: not a SAML Audience
 					au = sim.ForeignMark + cfgAud
 					foreign = true
 				}
-				if au == cfgAud {
+				if sim.StripMarks(au) == cfgAud {
 					matched = true
 				}
 				auds = append(auds, au)
@@ -114,6 +123,14 @@ func runC06(c *mon.Ctx) {
 		case 2:
 			a0.Cond.NotOnOrAfter = sim.S(sim.TS(now))
 			window = "ends-now"
+		case 3:
+			// a window that is empty or inverted (NotOnOrAfter at or before NotBefore): never valid, and the other
+			// conditions are still what the IdP signed
+			if r.IntN(3) == 0 {
+				t := now.Add(time.Duration(r.IntN(7200)-3600) * time.Second)
+				a0.Cond.NotBefore, a0.Cond.NotOnOrAfter = sim.S(sim.TS(t)), sim.S(sim.TS(t.Add(-time.Duration(r.IntN(3))*time.Hour)))
+				window = "empty"
+			}
 		}
 		a0.Cond.OneTimeUse = r.IntN(2) == 0
 		wantOTU := a0.Cond.OneTimeUse
